@@ -53,7 +53,10 @@ GNext ==
           IN Join(p) /\ H(R("join", p, 0, admitted[p].key, {}, TRUE, 0))
      ELSE Sched
 
-GInit == Init /\ hist = <<>>
+\* hist[1] describes the configuration (functions over 1..N print as JSON arrays indexed by member - 1)
+InitRec == [a |-> "init", members |-> InitMember, pledges |-> Pledge, view |-> InitView,
+            un |-> InitUnhealthy, appr |-> InitApprovals, maxprop |-> MaxProposals]
+GInit == Init /\ hist = <<InitRec>>
 GSpec == GInit /\ [][GNext]_<<vars, hist>>
 GView == vars
 
